@@ -556,10 +556,11 @@ Section Runs.
     revert st; induction fuel as [|f IH]; intros st; [reflexivity|].
     cbn [tb_exec]. cbv zeta.
     destruct (tb_mode (nth k (e_tbs st) no_tb) =? 0).
-    - destruct (tb_ops (nth k (e_tbs st) no_tb)) as [|[sig sh v|sig|spec b|spec|spec n] r]; auto.
+    - destruct (tb_ops (nth k (e_tbs st) no_tb)) as [|[sig sh v|sig|spec b|spec|spec n|spec n|b] r]; auto.
       rewrite tb_set_order_independent. apply IH.
     - destruct (t_broken (tb_trig (nth k (e_tbs st) no_tb))); auto.
       destruct (tb_mode (nth k (e_tbs st) no_tb) =? 1); auto.
+      destruct (tb_mode (nth k (e_tbs st) no_tb) =? 4); [destruct (tb_cnt (nth k (e_tbs st) no_tb)) as [|[|m]]; auto|].
       destruct (tick_fmt (tb_res (nth k (e_tbs st) no_tb))) as [|c [|r vs]]; auto.
       destruct (negb (r =? 0)); auto.
       destruct (tb_mode (nth k (e_tbs st) no_tb) =? 2).
@@ -1186,12 +1187,16 @@ Proof.
   induction fuel as [|f IH]; intros st; [apply ext_refl; reflexivity|].
   cbn [tb_exec]. cbv zeta.
   destruct (tb_mode (nth k (e_tbs st) no_tb) =? 0).
-  - destruct (tb_ops (nth k (e_tbs st) no_tb)) as [|[sig sh v|sig|spec b|spec|spec n] r]; try apply ext_tb_put.
+  - destruct (tb_ops (nth k (e_tbs st) no_tb)) as [|[sig sh v|sig|spec b|spec|spec n|spec n|b] r]; try apply ext_tb_put.
     + eapply ext_trans; [apply (ext_tb_set k ps orc sfuel sig sh v st)|].
       eapply ext_trans; [apply ext_tb_put|apply IH].
     + eapply ext_trans; [apply ext_tb_put|apply IH].
+    + eapply ext_trans; [apply ext_tb_put|apply IH].
   - destruct (t_broken (tb_trig (nth k (e_tbs st) no_tb))); [apply ext_tb_put|].
     destruct (tb_mode (nth k (e_tbs st) no_tb) =? 1); [eapply ext_trans; [apply ext_tb_put|apply IH]|].
+    destruct (tb_mode (nth k (e_tbs st) no_tb) =? 4);
+      [destruct (tb_cnt (nth k (e_tbs st) no_tb)) as [|[|m]];
+         try (eapply ext_trans; [apply ext_tb_put|apply IH]); apply ext_tb_put|].
     destruct (tick_fmt (tb_res (nth k (e_tbs st) no_tb))) as [|c [|r vs]]; try apply ext_tb_put.
     destruct (negb (r =? 0)); [apply ext_tb_put|].
     destruct (tb_mode (nth k (e_tbs st) no_tb) =? 2).
@@ -1915,10 +1920,11 @@ Section ClockComposed.
     cbn [tb_exec]. cbv zeta.
     assert (P : forall t tr, clk_sleep j (tb_put st i t tr)) by (intros; eapply sleep_same; [apply tb_put_same|auto]).
     destruct (tb_mode (nth i (e_tbs st) no_tb) =? 0).
-    - destruct (tb_ops (nth i (e_tbs st) no_tb)) as [|[sig sh v|sig|spec b|spec|spec n] r]; auto.
+    - destruct (tb_ops (nth i (e_tbs st) no_tb)) as [|[sig sh v|sig|spec b|spec|spec n|spec n|b] r]; auto.
       apply IH. eapply sleep_same; [apply tb_put_same|]. apply tb_set_clock_sleep; auto.
     - destruct (t_broken (tb_trig (nth i (e_tbs st) no_tb))); auto.
       destruct (tb_mode (nth i (e_tbs st) no_tb) =? 1); auto.
+      destruct (tb_mode (nth i (e_tbs st) no_tb) =? 4); [destruct (tb_cnt (nth i (e_tbs st) no_tb)) as [|[|m]]; auto|].
       destruct (tick_fmt (tb_res (nth i (e_tbs st) no_tb))) as [|c [|r vs]]; auto.
       destruct (negb (r =? 0)); auto.
       destruct (tb_mode (nth i (e_tbs st) no_tb) =? 2).
